@@ -461,3 +461,113 @@ def check_periodic(facts, res, R, cls, U):
                                       % (far.window(0, 3, True), "a non-zero offset" if selfx == "offset" else "comparing wrapped indices (an image of the cell itself is then taken for the cell)", T, G, U, z, side, D, H, x, got, want))
                         return n
     return n
+
+
+def size_assertions(facts_a, facts, res, R, cls):
+    """internal assertions of the per-cell list builders that mention the size of the returned list: evaluated against the model's list size
+    (periodic side, every value of the filter parameter, Dim 1..3).  `facts_a` is the scan with assertions compiled in."""
+    import bitdep
+    n = 0
+    for name, with_filter in (("getInteractionListForIndex", False), ("getNeighborListForIndex", True)):
+        ms = [m for m in facts_a.methods_of(cls) if m["name"] == name and not m.get("inst") and tbf.body(m) is not None]
+        if len(ms) != 1:
+            raise AnalysisBroken("%s::%s not found in the assertion-enabled scan" % (cls, name))
+        fn = ms[0]
+        body = tbf.body(fn)
+        tbf.link_parents(body)
+        fails = [c for c in walk(body) if c.get("k") == "CallExpr" and tbf.callee_name(c) in ("__assert_fail", "__assert")]
+        b = Builder(facts, cls, name)
+        fpar = fn["params"][2]["did"] if with_filter and len(fn["params"]) > 2 else None
+        if with_filter:
+            selfx, base, off, strict, fnode = neighbour_filters(facts, b)
+        for fc in fails:
+            co = None
+            for a in tbf.ancestors(fc):
+                if a.get("k") == "ConditionalOperator":
+                    co = a
+                    break
+            if co is None:
+                continue
+            cond = kids(co)[0]
+            if not any(y.get("k") in ("CallExpr", "CXXMemberCallExpr") and tbf.callee_name(y) == "size" for y in walk(cond)):
+                continue
+            per = [a for a in tbf.ancestors(co) if a.get("k") == "IfStmt" and "IsPeriodic" in facts_a.ntext([y for y in kids(a) if y.get("k") != "DeclStmt"][0])]
+            if not per:
+                continue          # the model below is the periodic one (every cell has the same list size)
+            n += 1
+
+            def aev(x, cnt, flt, D):
+                x = strip(x)
+                k = x.get("k")
+                if k in ("CXXStaticCastExpr", "ImplicitCastExpr", "ParenExpr", "CXXFunctionalCastExpr", "CStyleCastExpr") and kids(x):
+                    return aev(kids(x)[-1], cnt, flt, D)
+                if k == "IntegerLiteral":
+                    return int(x["val"])
+                if k == "CXXBoolLiteralExpr":
+                    return bool(x.get("val"))
+                if k == "DeclRefExpr":
+                    if x.get("did") == fpar:
+                        return flt
+                    if x.get("name") == "Dim":
+                        return D
+                if k in ("CallExpr", "CXXMemberCallExpr"):
+                    nm = tbf.callee_name(x)
+                    if nm == "size":
+                        return cnt
+                    fm = [m for m in facts.methods_of(cls) if m["name"] == nm and not m.get("inst") and tbf.body(m) is not None and not m["params"]]
+                    if len(fm) == 1 and not tbf.call_args(x):
+                        v = bitdep.Interp(facts, {"Dim": D}, cls=cls).call(fm[0], [])
+                        if isinstance(v, int):
+                            return v
+                    if nm == "lipow" and len(tbf.call_args(x)) == 2:
+                        return aev(tbf.call_args(x)[0], cnt, flt, D) ** aev(tbf.call_args(x)[1], cnt, flt, D)
+                if k == "UnaryOperator" and x.get("op") == "!":
+                    return not aev(kids(x)[0], cnt, flt, D)
+                if k == "ConditionalOperator":
+                    return aev(kids(x)[1], cnt, flt, D) if aev(kids(x)[0], cnt, flt, D) else aev(kids(x)[2], cnt, flt, D)
+                if k == "BinaryOperator":
+                    op = x.get("op")
+                    if op == "||":
+                        return bool(aev(kids(x)[0], cnt, flt, D)) or bool(aev(kids(x)[1], cnt, flt, D))
+                    if op == "&&":
+                        return bool(aev(kids(x)[0], cnt, flt, D)) and bool(aev(kids(x)[1], cnt, flt, D))
+                    a_, b_ = aev(kids(x)[0], cnt, flt, D), aev(kids(x)[1], cnt, flt, D)
+                    if op in ("==", "!=", "<", "<=", ">", ">="):
+                        return {"==": a_ == b_, "!=": a_ != b_, "<": a_ < b_, "<=": a_ <= b_, ">": a_ > b_, ">=": a_ >= b_}[op]
+                    if op in ("+", "-", "*", "/"):
+                        return {"+": a_ + b_, "-": a_ - b_, "*": a_ * b_, "/": (a_ // b_ if b_ else 0)}[op]
+                raise AnalysisBroken("%s::%s: assertion `%s` not evaluable on the model (%s)" % (cls, name, facts_a.ntext(cond)[:80], k))
+            bad = None
+            for D in (1, 2, 3):
+                for flt in ((False, True) if with_filter else (False,)):
+                    if with_filter:
+                        lo, hi = b.window(0, 2, True)
+                        mid = (base ** D) // 2
+                        cnt = 0
+                        for dl in itertools.product(range(lo, hi + 1), repeat=D):
+                            if not any(dl):
+                                continue
+                            code = 0
+                            for v in dl:
+                                code = code * base + (v + off)
+                            if (not flt) or code > mid:
+                                cnt += 1
+                    else:
+                        T = b.threshold()
+                        lo, hi = b.window(1, 3, True)
+                        cnt = 0
+                        for dp in itertools.product(range(lo, hi + 1), repeat=D):
+                            for c in itertools.product((0, 1), repeat=D):
+                                z = [2 * dp[d] + c[d] for d in range(D)]       # the target is child (0,..,0) of its parent
+                                if any(abs(z[d]) > T for d in range(D)):
+                                    cnt += 1
+                    ok = bool(aev(cond, cnt, flt, D))
+                    if not ok and bad is None:
+                        bad = (D, flt, cnt)
+            res.instance(R, "%s::%s `%s`" % (cls, name, facts_a.ntext(cond)[:70]), facts_a.loc(fc), "evaluated on the periodic model for Dim 1..3%s: %s" % (" and both values of the filter argument" if with_filter else "", "holds" if bad is None else "fails (Dim %d, filter %s, %d entries)" % bad))
+            if bad is not None:
+                D, flt, cnt = bad
+                res.violation(R, tbf.rel(facts_a.path_of(fc)), fn["qname"], "size-assertion:%s" % name + (":filter" if flt else ""), co["l"][1],
+                              "the internal assertion `%s` fails for valid arguments: with Dim = %d, the periodic ordering%s the list holds %d entries - a build with assertions enabled aborts in a plain query" % (
+                                  facts_a.ntext(cond)[:90], D, " and the upper-half filter requested (third argument true)" if flt else "", cnt))
+    return n
